@@ -60,6 +60,20 @@ for _f in sorted(_glob.glob(os.path.join(V, "notes", "manifest-C*.json"))):
     if os.path.exists(os.path.join(V, "checks", _p.lower() + ".py")):
         CLAIMED[_p] = json.load(open(_f))
 
+# lead's additions on top of the builders' texts
+EXTRA = {
+ "C11": " Joined with C08 and the end-to-end model (System/History.v, props/Properties_C11sys.v): with the REAL file -> settings function (Config.Model.load over the regenerated option tables) "
+        "C11_effective_settings (for every history of file contents, both variants: the settings in force for call k = defaults overlaid with file k) and "
+        "C11_records_depend_on_current_file_only (what call k hands to the sinks = log_exec file_k); tied by a model-based history stream: the composed model predicts every call "
+        "of histories with the file rewritten between calls, in both builds.",
+ "C04": " End to end (System/Compose.v, props/Properties_C04sys.v): C04_sys_dropped_silent / C04_sys_one_record / C04_sys_ideal_is_documented state the same for the records as a function "
+        "of the configuration FILE (Config.load -> Filter.check_chain -> Expand.log_message -> Output.action_el), tied by a whole-run stream: generated snoopy.ini files x calls through the "
+        "production wrapper compared with the per-run extraction of the composed model (which contains the regenerated constants).",
+}
+for _p, _t in EXTRA.items():
+    if _p in CLAIMED:
+        CLAIMED[_p] = dict(CLAIMED[_p], text=CLAIMED[_p]["text"] + _t)
+
 PENDING_REASON = "not claimed yet: the Coq model and its tie for this property are not built at this commit (planned, see DESIGN.md section 12)"
 
 
